@@ -69,7 +69,7 @@ Proof. destruct k; reflexivity. Qed.
 
 (* ---- well-formed entries ---------------------------------------------------------------- *)
 
-Definition chunk_ok (c : bytes) : Prop := (1 <= length c <= 65535)%nat.
+Definition chunk_ok (c : bytes) : Prop := 1 <= blen c <= 65535.
 
 (* the limits are those of the machine: a path or a buffer is shorter than isize::MAX bytes *)
 Definition wf_entry (w : wentry) : Prop :=
@@ -212,13 +212,14 @@ Lemma entry_read_chunk k c r : (1 <= k)%nat -> chunk_ok c ->
   entry_read k None {| rest := u16_le (blen c) ++ c ++ r; cbuf := [] |} =
     Ok (firstn k c, None, {| rest := r; cbuf := skipn k c |}).
 Proof.
-  intros Hk [Hc1 Hc2]. unfold entry_read. cbn [rest cbuf]. cbv zeta.
-  rewrite ltb_len_false by (rewrite app_length, u16_le_length; lia).
-  rewrite (firstn_app_len _ _ 2 (u16_le_length _)), (skipn_app_len0 _ _ 2 (u16_le_length _)).
+  intros Hk [Hc1 Hc2]. unfold blen in Hc1, Hc2. unfold entry_read. cbn [rest cbuf]. cbv zeta.
+  rewrite (ltb_len_false (u16_le (blen c) ++ c ++ r) 2) by (rewrite app_length, u16_le_length; lia).
+  rewrite !(firstn_app_len (u16_le (blen c)) (c ++ r) 2%nat (u16_le_length _)),
+          !(skipn_app_len0 (u16_le (blen c)) (c ++ r) 2%nat (u16_le_length _)).
   rewrite u16_le_val by (unfold blen; lia).
   unfold blen. rewrite Nat2N.id.
-  rewrite ltb_len_false by (rewrite app_length; lia).
-  rewrite (firstn_app_len c r _ eq_refl), (skipn_app_len0 c r _ eq_refl).
+  rewrite (ltb_len_false (c ++ r) (length c)) by (rewrite app_length; lia).
+  rewrite !(firstn_app_len c r _ eq_refl), !(skipn_app_len0 c r _ eq_refl).
   cbn [rest cbuf].
   destruct c as [|x c]; [cbn [length] in Hc1; lia|].
   destruct k as [|k]; [lia|]. reflexivity.
@@ -255,7 +256,7 @@ Proof.
       cbn [enc_chunks]. rewrite <- !app_assoc. rewrite entry_read_chunk by assumption.
       destruct (firstn k c) as [|y o] eqn:Ef.
       { exfalso. assert (H : length (firstn k c) = 0%nat) by now rewrite Ef.
-        rewrite firstn_length in H. destruct Hc0. lia. }
+        rewrite firstn_length in H. destruct Hc0 as [Hc1 Hc2]. unfold blen in Hc1, Hc2. lia. }
       cbv beta iota. rewrite <- Ef.
       assert (Hne : length (firstn k c) <> 0%nat) by (rewrite Ef; cbn [length]; lia).
       rewrite firstn_length in Hne.
@@ -361,12 +362,12 @@ Proof.
   induction fuel as [|fuel IH]; intros c Hf; [lia|].
   cbn [file_chunks]. destruct c as [|x c]; [split; [constructor | reflexivity]|].
   set (l := x :: c) in *.
-  assert (Hb : BUF_LEN = 65535%nat) by (unfold BUF_LEN; lia).
+  assert (Hb : N.of_nat BUF_LEN = 65535) by (unfold BUF_LEN; apply N2Nat.id).
   assert (Hl : (1 <= length l)%nat) by (subst l; cbn [length]; lia).
   destruct (IH (skipn BUF_LEN l)) as [H1 H2].
   { rewrite skipn_length. lia. }
   split.
-  - constructor; [|exact H1]. unfold chunk_ok. rewrite firstn_length. lia.
+  - constructor; [|exact H1]. unfold chunk_ok, blen. rewrite firstn_length. lia.
   - cbn [concat]. rewrite H2. apply firstn_skipn.
 Qed.
 
